@@ -386,6 +386,39 @@ def run(rep, facts, tier):
                 'reverse log)', cc.name, t.get('at'))
     rep.floor('C15.R2 Eval-mode run() in context_close', n_run, 1)
 
+    # ... and stays there: the function that rolls a rejected source back leaves a source that was built and failed while running
+    # alone (the branch behind `no context of this source is open any more`).  Halting it there or dropping its frames makes
+    # eval differ from compile + run: after a limit was hit the host raises it and continues with run() - under compile + run the
+    # program goes on, under eval it would have been ended silently.  (The next *source* ends it: C10.R2.)
+    from .c10 import built_blocks, halt_sites
+    halters = {fn for fn in fx.fns if fn.startswith('state::') and halt_sites(fx, W, fx.fns[fn], W.get(fn, []))}
+    n_built = 0
+    direct = {fn for fn, ws in W.items() if fn in fx.fns and any(w['field'][0] == 'nested' and w['how'].startswith('call:shrink') for w in ws)}
+    cg = fx.callgraph()
+    cands = direct | {fn for fn in fx.fns if fn.startswith('state::') and set(cg.get(fn, ())) & direct}
+    for fn in sorted(cands):
+        # the test may stand in the function that rolls back or in its caller (`if nested.len() > depth { self.rollback(mark) }`)
+        f = V(fn)
+        ws = awrite.field_writes(fx, f, tracked_) if f is not fx.fns.get(fn) else W.get(fn, [])
+        if not any(w['field'][0] == 'nested' and w['how'].startswith('call:shrink') for w in ws):
+            continue
+        built = built_blocks(f)
+        if not built:
+            continue
+        n_built += 1
+        bad = [h['at'] for h in halt_sites(fx, W, f, ws) if h['bb'] in built]
+        for bb, t2 in f.calls():
+            c = callee_of(t2) or ''
+            if bb in built and c.startswith('state::') and (fx.reachable_from([c]) | {c}) & halters:
+                bad.append('%s (calls %s)' % (t2.get('at'), short(c)))
+        bad += [w['at'] for w in ws if w['bb'] in built and w['field'][0] in ('return_stack', 'loops', 'special') and w['how'].startswith('call:shrink')]
+        rep.add('C15.R2', 'C15.R2:eval:failed-run-stays-continuable:%s' % short(fn), not bad,
+                'the path of a built source through %s neither halts the program nor drops its frames' % short(fn) if not bad else
+                '%s ends a source that was built and failed while running (%s): after `set_insn_limit(5); eval("1 2 3 4 5 6 7 8")` fails and the '
+                'limit is raised, run() does nothing and returns Ok, where the same program under compile + run continues' % (short(fn), bad[0]),
+                fn, f.j['span'])
+    rep.floor('C15.R2 roll-back functions with a built-source path', n_built, 1)
+
     # a user-defined immediate word is run at build time with run(): the frame it returns into must make the VM stop (return
     # address = end of the code), otherwise run() carries on with the half-built program of the current source - code that
     # eval keeps "already executed" and compile later runs again - and the ip of the enclosing context is given back afterwards
